@@ -30,6 +30,23 @@ static SysEv g_sysev[64];
 static volatile int g_nsys = 0;
 static volatile int g_api = 0;
 
+// system blocks handed out while an allocator member ran and not yet freed: an
+// invalid free is *recorded* but not executed, so the heap stays usable and the
+// rest of the history can still be validated
+static std::uintptr_t g_sysblocks[4096];
+static int g_nblocks = 0;
+static void block_add(void* p) {
+    if (p && g_nblocks < 4096) g_sysblocks[g_nblocks++] = reinterpret_cast<std::uintptr_t>(p);
+}
+static bool block_remove(void* p) {
+    for (int i = 0; i < g_nblocks; ++i)
+        if (g_sysblocks[i] == reinterpret_cast<std::uintptr_t>(p)) {
+            g_sysblocks[i] = g_sysblocks[--g_nblocks];
+            return true;
+        }
+    return false;
+}
+
 static void note(int kind, void* p, std::size_t n) {
     if (g_api && g_nsys < 64) {
         g_sysev[g_nsys].kind = kind;
@@ -41,21 +58,24 @@ static void note(int kind, void* p, std::size_t n) {
 extern "C" {
 void* __wrap_malloc(size_t n) {
     void* p = __real_malloc(n);
-    note(0, p, n);
+    if (g_api) { note(0, p, n); block_add(p); }
     return p;
 }
 void __wrap_free(void* p) {
-    note(1, p, 0);
+    if (g_api) {
+        note(1, p, 0);
+        if (p && !block_remove(p)) return;   // invalid free: recorded, not executed
+    }
     __real_free(p);
 }
 int __wrap_posix_memalign(void** o, size_t a, size_t n) {
     int r = __real_posix_memalign(o, a, n);
-    note(0, r == 0 ? *o : nullptr, n);
+    if (g_api) { note(0, r == 0 ? *o : nullptr, n); if (r == 0) block_add(*o); }
     return r;
 }
 void* __wrap_aligned_alloc(size_t a, size_t n) {
     void* p = __real_aligned_alloc(a, n);
-    note(0, p, n);
+    if (g_api) { note(0, p, n); block_add(p); }
     return p;
 }
 }
@@ -67,10 +87,7 @@ static int g_next_id = 1;
 
 static long rel(std::uintptr_t p) {
     if (p == 0) return 0;
-    if (p < g_ref || p - g_ref >= (1ul << 30)) {
-        std::fprintf(stderr, "VH-HARNESS-ERROR: address outside the normalised window\n");
-        std::exit(3);
-    }
+    if (p < g_ref || p - g_ref >= (1ul << 30)) return (1l << 30) + long(p & 0xFFFFF);   // far outside the heap window (wild pointer)
     return long(p - g_ref);
 }
 
